@@ -16,13 +16,13 @@ case "$1" in
   ;;
  run)
   shift
-  tags=${@:-$(ls $L/verif/seeded)}
+  tags=${@:-$(ls /verif/seeded)}
   cd $L/verif
   for tag in $tags; do
     prop=${tag:0:3}; [ -n "$PROP" ] && prop=$PROP
-    p=seeded/$tag/patch.diff; [ -f seeded/$tag/patch.rebased.diff ] && p=seeded/$tag/patch.rebased.diff
+    p=/verif/seeded/$tag/patch.diff; [ -f /verif/seeded/$tag/patch.rebased.diff ] && p=/verif/seeded/$tag/patch.rebased.diff
     [ -f $p ] || continue
-    git -C $L/repo checkout -- . ; git -C $L/repo apply $L/verif/$p 2>/dev/null || { echo "$tag PATCH-DOES-NOT-APPLY"; continue; }
+    git -C $L/repo checkout -- . ; git -C $L/repo apply $p 2>/dev/null || { echo "$tag PATCH-DOES-NOT-APPLY"; continue; }
     ./check $prop --tier ${TIER:-quick} > $L/out_${tag}_$prop.log 2>&1; rc=$?
     git -C $L/repo checkout -- .
     nv=$(grep -c '^VIOLATION' $L/out_${tag}_$prop.log)
